@@ -46,6 +46,27 @@ pub fn exec_oracle(kind: &str, fields: &[&str]) -> String {
         "S_C18F" => oracle_c18f(fields),
         "S_C18P" => oracle_c18p(fields),
         "S_C19U" => oracle_c19u(fields),
+        "S_C19O" => {
+            // the dm / dms operators: encode (inverse) then decode (forward) returns every position as it was
+            let op = fields[0];
+            let pts = parse_data(fields[1]);
+            let (Ok((n1, enc)), ) = (run_kind("default", op, false, &pts), ) else { return "oracle FAIL dm/dms not instantiable".to_string() };
+            let Ok((n2, back)) = run_kind("default", op, true, &enc) else { return "oracle FAIL dm/dms not instantiable".to_string() };
+            if n1 != pts.len() || n2 != pts.len() {
+                return format!("oracle FAIL {op}: {n1} / {n2} of {} tuples counted", pts.len());
+            }
+            for ((p, e), b) in pts.iter().zip(enc.iter()).zip(back.iter()) {
+                for j in 0..2 {
+                    if !((p[j] - b[j]).abs() <= 1e-11 * p[j].abs().max(1.0)) {
+                        return format!("oracle FAIL {op}: ({} deg, {} deg) is encoded as ({}, {}) and decoded as ({} deg, {} deg)", p[0].to_degrees(), p[1].to_degrees(), e[0], e[1], b[0].to_degrees(), b[1].to_degrees());
+                    }
+                }
+                if p[2].to_bits() != b[2].to_bits() || p[3].to_bits() != b[3].to_bits() {
+                    return format!("oracle FAIL {op}: height or time changed");
+                }
+            }
+            "oracle pass".to_string()
+        }
         "S_C16E" => {
             let def = unescape(fields[0]);
             match Minimal::default().op(&def) {
